@@ -154,6 +154,14 @@ def run_views(prop: str, repo_root: str, overrides, tier: str):
             used_b += 1
         else:
             merged.extend(ga)
+    # groups only the canonical view produced (the live view stopped before reaching them, e.g. a fold that left the fragment
+    # emitted one "undecided" instead of the per-gate obligations): they are verdicts about an equivalent program and count
+    for g, gb in groups_b.items():
+        if g not in groups_a:
+            for x in gb:
+                x.detail = (x.detail + " [canonical view only]").strip()
+            merged.extend(gb)
+            used_b += 1
     ctx.obligations = merged
     ctx.functions_analysed |= ctx_b.functions_analysed
     ctx.extra["groups_discharged_on_canonical_view"] = used_b
